@@ -1195,4 +1195,347 @@ func registerAll() {
 			}
 			return sent(T(kw("acl"), kw("log"), di(a.I[0])))
 		}})
+	// ---------------- second batch ----------------
+	register(method{name: "ZPop",
+		gen: func(r *gen.Rand) A {
+			n := r.Intn(3)
+			il := make([]int64, n)
+			for i := range il {
+				il[i] = gInt(r)
+			}
+			return A{S: []string{gKey(r)}, IL: il, B: []bool{r.Bool()}}
+		},
+		call: func(c compat.Cmdable, a A) compat.Cmder {
+			if a.B[0] {
+				return c.ZPopMax(ctx, a.S[0], a.IL...)
+			}
+			return c.ZPopMin(ctx, a.S[0], a.IL...)
+		},
+		kind: func(a A) string {
+			if a.B[0] {
+				return "ZPopMax"
+			}
+			return "ZPopMin"
+		},
+		coq: func(a A) string { return app("MZPop", cB(a.B[0]), cS(a.S[0]), cZL(a.IL)) },
+		ref: func(a A) Ref {
+			cmd := "zpopmin"
+			if a.B[0] {
+				cmd = "zpopmax"
+			}
+			switch len(a.IL) {
+			case 0:
+				return sent(T(kw(cmd), d(a.S[0])))
+			case 1:
+				return sent(T(kw(cmd), d(a.S[0]), di(a.IL[0])))
+			}
+			return Ref{Status: refNothing}
+		}})
+	register(method{name: "ZRangePlain",
+		gen: func(r *gen.Rand) A {
+			return A{S: []string{gKey(r)}, I: []int64{gInt(r), gInt(r)}, B: []bool{r.Bool(), r.Bool()}}
+		},
+		call: func(c compat.Cmdable, a A) compat.Cmder {
+			switch {
+			case a.B[0] && a.B[1]:
+				return c.ZRevRangeWithScores(ctx, a.S[0], a.I[0], a.I[1])
+			case a.B[0]:
+				return c.ZRevRange(ctx, a.S[0], a.I[0], a.I[1])
+			case a.B[1]:
+				return c.ZRangeWithScores(ctx, a.S[0], a.I[0], a.I[1])
+			}
+			return c.ZRange(ctx, a.S[0], a.I[0], a.I[1])
+		},
+		kind: func(a A) string {
+			n := "ZRange"
+			if a.B[0] {
+				n = "ZRevRange"
+			}
+			if a.B[1] {
+				n += "WithScores"
+			}
+			return n
+		},
+		coq: func(a A) string {
+			return app("MZRangePlain", cB(a.B[0]), cB(a.B[1]), cS(a.S[0]), cZ(a.I[0]), cZ(a.I[1]))
+		},
+		ref: func(a A) Ref {
+			cmd := "zrange"
+			if a.B[0] {
+				cmd = "zrevrange"
+			}
+			return sent(T(kw(cmd), d(a.S[0]), di(a.I[0]), di(a.I[1])), If(a.B[1], kw("withscores")))
+		}})
+	register(method{name: "BPop",
+		gen: func(r *gen.Rand) A { return A{I: []int64{gDur(r), int64(r.Intn(4))}, L: gKeys(r, 4)} },
+		call: func(c compat.Cmdable, a A) compat.Cmder {
+			switch a.I[1] {
+			case 1:
+				return c.BRPop(ctx, dur(a.I[0]), a.L...)
+			case 2:
+				return c.BZPopMax(ctx, dur(a.I[0]), a.L...)
+			case 3:
+				return c.BZPopMin(ctx, dur(a.I[0]), a.L...)
+			}
+			return c.BLPop(ctx, dur(a.I[0]), a.L...)
+		},
+		kind: func(a A) string { return []string{"BLPop", "BRPop", "BZPopMax", "BZPopMin"}[a.I[1]] },
+		coq: func(a A) string {
+			return app("MBPop", []string{"BpL", "BpR", "BpZMax", "BpZMin"}[a.I[1]], cZ(a.I[0]), cL(a.L))
+		},
+		ref: func(a A) Ref {
+			cmd := []string{"blpop", "brpop", "bzpopmax", "bzpopmin"}[a.I[1]]
+			return sent(T(kw(cmd)), ds(a.L), T(di(formatSec(dur(a.I[0])))))
+		}})
+	register(method{name: "BRPopLPush",
+		gen:  func(r *gen.Rand) A { return A{S: []string{gKey(r), gKey(r)}, I: []int64{gDur(r)}} },
+		call: func(c compat.Cmdable, a A) compat.Cmder { return c.BRPopLPush(ctx, a.S[0], a.S[1], dur(a.I[0])) },
+		coq:  func(a A) string { return app("MBRPopLPush", cS(a.S[0]), cS(a.S[1]), cZ(a.I[0])) },
+		ref:  func(a A) Ref { return sent(T(kw("brpoplpush"), d(a.S[0]), d(a.S[1]), di(formatSec(dur(a.I[0]))))) }})
+	register(method{name: "LMove",
+		gen:  func(r *gen.Rand) A { return A{S: []string{gKey(r), gKey(r), gDir(r), gDir(r)}} },
+		call: func(c compat.Cmdable, a A) compat.Cmder { return c.LMove(ctx, a.S[0], a.S[1], a.S[2], a.S[3]) },
+		coq:  func(a A) string { return app("MLMove", cS(a.S[0]), cS(a.S[1]), cS(a.S[2]), cS(a.S[3])) },
+		ref:  func(a A) Ref { return sent(T(kw("lmove"), d(a.S[0]), d(a.S[1]), kw(a.S[2]), kw(a.S[3]))) }})
+	register(method{name: "BLMove",
+		gen: func(r *gen.Rand) A { return A{S: []string{gKey(r), gKey(r), gDir(r), gDir(r)}, I: []int64{gDur(r)}} },
+		call: func(c compat.Cmdable, a A) compat.Cmder {
+			return c.BLMove(ctx, a.S[0], a.S[1], a.S[2], a.S[3], dur(a.I[0]))
+		},
+		coq: func(a A) string { return app("MBLMove", cS(a.S[0]), cS(a.S[1]), cS(a.S[2]), cS(a.S[3]), cZ(a.I[0])) },
+		ref: func(a A) Ref {
+			return sent(T(kw("blmove"), d(a.S[0]), d(a.S[1]), kw(a.S[2]), kw(a.S[3]), di(formatSec(dur(a.I[0])))))
+		}})
+	register(method{name: "XRangeCmd",
+		gen: func(r *gen.Rand) A {
+			return A{S: []string{gKey(r), gen.Pick(r, []string{"-", "1-0", "+"}), gen.Pick(r, []string{"+", "5-0", "-"})}, I: []int64{gInt(r)}, B: []bool{r.Bool(), r.Bool()}}
+		},
+		call: func(c compat.Cmdable, a A) compat.Cmder {
+			switch {
+			case a.B[0] && a.B[1]:
+				return c.XRevRangeN(ctx, a.S[0], a.S[1], a.S[2], a.I[0])
+			case a.B[0]:
+				return c.XRevRange(ctx, a.S[0], a.S[1], a.S[2])
+			case a.B[1]:
+				return c.XRangeN(ctx, a.S[0], a.S[1], a.S[2], a.I[0])
+			}
+			return c.XRange(ctx, a.S[0], a.S[1], a.S[2])
+		},
+		kind: func(a A) string {
+			n := "XRange"
+			if a.B[0] {
+				n = "XRevRange"
+			}
+			if a.B[1] {
+				n += "N"
+			}
+			return n
+		},
+		coq: func(a A) string {
+			cnt := "None"
+			if a.B[1] {
+				cnt = "(Some " + cZ(a.I[0]) + ")"
+			}
+			return app("MXRangeCmd", cB(a.B[0]), cS(a.S[0]), cS(a.S[1]), cS(a.S[2]), cnt)
+		},
+		ref: func(a A) Ref {
+			cmd := "xrange"
+			if a.B[0] {
+				cmd = "xrevrange"
+			}
+			return sent(T(kw(cmd), d(a.S[0]), d(a.S[1]), d(a.S[2])), If(a.B[1], kw("count"), di(a.I[0])))
+		}})
+	register(method{name: "XGroupCreate",
+		gen: func(r *gen.Rand) A {
+			return A{S: []string{gKey(r), gStr(r), gen.Pick(r, []string{"$", "0", "1-0"})}, B: []bool{r.Bool()}}
+		},
+		call: func(c compat.Cmdable, a A) compat.Cmder {
+			if a.B[0] {
+				return c.XGroupCreateMkStream(ctx, a.S[0], a.S[1], a.S[2])
+			}
+			return c.XGroupCreate(ctx, a.S[0], a.S[1], a.S[2])
+		},
+		kind: func(a A) string {
+			if a.B[0] {
+				return "XGroupCreateMkStream"
+			}
+			return "XGroupCreate"
+		},
+		coq: func(a A) string { return app("MXGroupCreate", cB(a.B[0]), cS(a.S[0]), cS(a.S[1]), cS(a.S[2])) },
+		ref: func(a A) Ref {
+			return sent(T(kw("xgroup"), kw("create"), d(a.S[0]), d(a.S[1]), d(a.S[2])), If(a.B[0], kw("mkstream")))
+		}})
+	register(method{name: "XAck",
+		gen:  func(r *gen.Rand) A { return A{S: []string{gKey(r), gStr(r)}, L: gIDs(r)} },
+		call: func(c compat.Cmdable, a A) compat.Cmder { return c.XAck(ctx, a.S[0], a.S[1], a.L...) },
+		coq:  func(a A) string { return app("MXAck", cS(a.S[0]), cS(a.S[1]), cL(a.L)) },
+		ref:  func(a A) Ref { return sent(T(kw("xack"), d(a.S[0]), d(a.S[1])), ds(a.L)) }})
+	register(method{name: "XDel",
+		gen:  func(r *gen.Rand) A { return A{S: []string{gKey(r)}, L: gIDs(r)} },
+		call: func(c compat.Cmdable, a A) compat.Cmder { return c.XDel(ctx, a.S[0], a.L...) },
+		coq:  func(a A) string { return app("MXDel", cS(a.S[0]), cL(a.L)) },
+		ref:  func(a A) Ref { return sent(T(kw("xdel"), d(a.S[0])), ds(a.L)) }})
+	register(method{name: "Eval",
+		gen: func(r *gen.Rand) A {
+			v := gAVs(r, 4)
+			return A{S: []string{gen.Pick(r, []string{"return 1", "sha1abc", "myfunc", ""})}, L: gKeys(r, 3), V: v, I: []int64{int64(r.Intn(6))}}
+		},
+		call: func(c compat.Cmdable, a A) compat.Cmder {
+			args := make([]any, len(a.V))
+			for i, v := range a.V {
+				args[i] = v.any()
+			}
+			switch a.I[0] {
+			case 1:
+				return c.EvalSha(ctx, a.S[0], a.L, args...)
+			case 2:
+				return c.EvalRO(ctx, a.S[0], a.L, args...)
+			case 3:
+				return c.EvalShaRO(ctx, a.S[0], a.L, args...)
+			case 4:
+				return c.FCall(ctx, a.S[0], a.L, args...)
+			case 5:
+				return c.FCallRO(ctx, a.S[0], a.L, args...)
+			}
+			return c.Eval(ctx, a.S[0], a.L, args...)
+		},
+		kind: func(a A) string {
+			return []string{"Eval", "EvalSha", "EvalRO", "EvalShaRO", "FCall", "FCallRO"}[a.I[0]]
+		},
+		coq: func(a A) string {
+			return app("MEval", []string{"EvEval", "EvEvalSha", "EvEvalRO", "EvEvalShaRO", "EvFCall", "EvFCallRO"}[a.I[0]], cS(a.S[0]), cL(a.L), cVL(a.V))
+		},
+		ref: func(a A) Ref {
+			if len(a.V) == 1 && a.V[0].T == "nil" {
+				return Ref{Status: refNothing} // appendArg(nil): reflect.ValueOf(nil).Type() panics
+			}
+			cmd := []string{"eval", "evalsha", "eval_ro", "evalsha_ro", "fcall", "fcall_ro"}[a.I[0]]
+			return sent(T(kw(cmd), d(a.S[0]), di(int64(len(a.L)))), ds(a.L), dv(a.V))
+		}})
+	register(method{name: "PopCount",
+		gen: func(r *gen.Rand) A { return A{S: []string{gKey(r)}, I: []int64{gInt(r), int64(r.Intn(4))}} },
+		call: func(c compat.Cmdable, a A) compat.Cmder {
+			switch a.I[1] {
+			case 1:
+				return c.SRandMemberN(ctx, a.S[0], a.I[0])
+			case 2:
+				return c.LPopCount(ctx, a.S[0], a.I[0])
+			case 3:
+				return c.RPopCount(ctx, a.S[0], a.I[0])
+			}
+			return c.SPopN(ctx, a.S[0], a.I[0])
+		},
+		kind: func(a A) string { return []string{"SPopN", "SRandMemberN", "LPopCount", "RPopCount"}[a.I[1]] },
+		coq: func(a A) string {
+			return app("MPopCount", []string{"PcSPop", "PcSRand", "PcLPop", "PcRPop"}[a.I[1]], cS(a.S[0]), cZ(a.I[0]))
+		},
+		ref: func(a A) Ref {
+			return sent(T(kw([]string{"spop", "srandmember", "lpop", "rpop"}[a.I[1]]), d(a.S[0]), di(a.I[0])))
+		}})
+	register(method{name: "ZRandMember",
+		gen: func(r *gen.Rand) A { return A{S: []string{gKey(r)}, I: []int64{gInt(r)}, B: []bool{r.Bool()}} },
+		call: func(c compat.Cmdable, a A) compat.Cmder {
+			if a.B[0] {
+				return c.ZRandMemberWithScores(ctx, a.S[0], a.I[0])
+			}
+			return c.ZRandMember(ctx, a.S[0], a.I[0])
+		},
+		kind: func(a A) string {
+			if a.B[0] {
+				return "ZRandMemberWithScores"
+			}
+			return "ZRandMember"
+		},
+		coq: func(a A) string { return app("MZRandMember", cB(a.B[0]), cS(a.S[0]), cZ(a.I[0])) },
+		ref: func(a A) Ref { return sent(T(kw("zrandmember"), d(a.S[0]), di(a.I[0])), If(a.B[0], kw("withscores"))) }})
+	register(method{name: "InterCard",
+		gen: func(r *gen.Rand) A { return A{I: []int64{gInt(r)}, L: gKeys(r, 4), B: []bool{r.Bool()}} },
+		call: func(c compat.Cmdable, a A) compat.Cmder {
+			if a.B[0] {
+				return c.ZInterCard(ctx, a.I[0], a.L...)
+			}
+			return c.SInterCard(ctx, a.I[0], a.L...)
+		},
+		kind: func(a A) string {
+			if a.B[0] {
+				return "ZInterCard"
+			}
+			return "SInterCard"
+		},
+		coq: func(a A) string { return app("MInterCard", cB(a.B[0]), cZ(a.I[0]), cL(a.L)) },
+		ref: func(a A) Ref {
+			cmd := "sintercard"
+			if a.B[0] {
+				cmd = "zintercard"
+			}
+			return sent(T(kw(cmd), di(int64(len(a.L)))), ds(a.L), T(kw("limit"), di(a.I[0])))
+		}})
+	gOrder := func(r *gen.Rand) string { return gen.Pick(r, []string{"MIN", "MAX", "min", "Max"}) }
+	register(method{name: "ZMPop",
+		gen:  func(r *gen.Rand) A { return A{S: []string{gOrder(r)}, I: []int64{gInt(r)}, L: gKeys(r, 4)} },
+		call: func(c compat.Cmdable, a A) compat.Cmder { return c.ZMPop(ctx, a.S[0], a.I[0], a.L...) },
+		coq:  func(a A) string { return app("MZMPop", cS(a.S[0]), cZ(a.I[0]), cL(a.L)) },
+		ref: func(a A) Ref {
+			if a.I[0] <= 0 {
+				return Ref{Status: refUncertain}
+			}
+			return sent(T(kw("zmpop"), di(int64(len(a.L)))), ds(a.L), T(kw(strings.ToLower(a.S[0])), kw("count"), di(a.I[0])))
+		}})
+	register(method{name: "BZMPop",
+		gen:  func(r *gen.Rand) A { return A{S: []string{gOrder(r)}, I: []int64{gInt(r), gDur(r)}, L: gKeys(r, 4)} },
+		call: func(c compat.Cmdable, a A) compat.Cmder { return c.BZMPop(ctx, dur(a.I[1]), a.S[0], a.I[0], a.L...) },
+		coq:  func(a A) string { return app("MBZMPop", cZ(a.I[1]), cS(a.S[0]), cZ(a.I[0]), cL(a.L)) },
+		ref: func(a A) Ref {
+			if a.I[0] <= 0 {
+				return Ref{Status: refUncertain}
+			}
+			return sent(T(kw("bzmpop"), di(formatSec(dur(a.I[1]))), di(int64(len(a.L)))), ds(a.L), T(kw(strings.ToLower(a.S[0])), kw("count"), di(a.I[0])))
+		}})
+	register(method{name: "ClientPause",
+		gen:  func(r *gen.Rand) A { return A{I: []int64{gDur(r)}} },
+		call: func(c compat.Cmdable, a A) compat.Cmder { return c.ClientPause(ctx, dur(a.I[0])) },
+		coq:  func(a A) string { return app("MClientPause", cZ(a.I[0])) },
+		ref:  func(a A) Ref { return sent(T(kw("client"), kw("pause"), di(formatMs(dur(a.I[0]))))) },
+		class: func(a A) (string, string) {
+			if formatMs(dur(a.I[0])) != formatSec(dur(a.I[0])) {
+				return siteA + "ClientPause", "timeout-in-seconds"
+			}
+			return "", ""
+		}})
+	register(method{name: "SlowLogGet",
+		gen:  func(r *gen.Rand) A { return A{I: []int64{gInt(r)}} },
+		call: func(c compat.Cmdable, a A) compat.Cmder { return c.SlowLogGet(ctx, a.I[0]) },
+		coq:  func(a A) string { return app("MSlowLogGet", cZ(a.I[0])) },
+		ref:  func(a A) Ref { return sent(T(kw("slowlog"), kw("get"), di(a.I[0]))) }})
+	register(method{name: "GeoDist",
+		gen: func(r *gen.Rand) A {
+			return A{S: []string{gKey(r), gStr(r), gStr(r), gen.Pick(r, []string{"", "km", "KM", "m", "Mi", "ft", "yd", "x"})}}
+		},
+		call: func(c compat.Cmdable, a A) compat.Cmder { return c.GeoDist(ctx, a.S[0], a.S[1], a.S[2], a.S[3]) },
+		coq:  func(a A) string { return app("MGeoDist", cS(a.S[0]), cS(a.S[1]), cS(a.S[2]), cS(a.S[3])) },
+		ref: func(a A) Ref {
+			u := a.S[3]
+			if u == "" {
+				u = "km"
+			}
+			return sent(T(kw("geodist"), d(a.S[0]), d(a.S[1]), d(a.S[2]), kw(u)))
+		},
+		class: func(a A) (string, string) {
+			switch strings.ToUpper(a.S[3]) {
+			case "", "M", "KM", "MI", "FT":
+				return "", ""
+			}
+			return siteA + "GeoDist", "invalid-unit-panics"
+		}})
+	register(method{name: "FunctionList",
+		gen: func(r *gen.Rand) A {
+			return A{S: []string{gen.Pick(r, []string{"", "lib*", "*"})}, B: []bool{r.Bool()}}
+		},
+		call: func(c compat.Cmdable, a A) compat.Cmder {
+			return c.FunctionList(ctx, compat.FunctionListQuery{LibraryNamePattern: a.S[0], WithCode: a.B[0]})
+		},
+		coq: func(a A) string { return app("MFunctionList", cS(a.S[0]), cB(a.B[0])) },
+		ref: func(a A) Ref {
+			return sent(T(kw("function"), kw("list")), If(a.S[0] != "", kw("libraryname"), d(a.S[0])), If(a.B[0], kw("withcode")))
+		}})
 }
